@@ -141,11 +141,14 @@ func exercise(c Case) *ev.Verdict {
 func oracle(c Case) *ev.Verdict {
 	done := make(chan *ev.Verdict, 1)
 	go func() { done <- exercise(c) }()
+	// 30 s, and a minute more for every megabyte of input (the harness itself walks megabytes of lexemes; on
+	// a busy machine that alone takes tens of seconds)
+	budget := 30*time.Second + time.Duration(len(c.Text)>>20)*time.Minute
 	select {
 	case v := <-done:
 		return v
-	case <-time.After(30 * time.Second):
-		return ev.V("hang:"+c.Entry, "no result within 30 s for %s", describe(c))
+	case <-time.After(budget):
+		return ev.V("hang:"+c.Entry, "no result within %v for %s", budget, describe(c))
 	}
 }
 
